@@ -79,7 +79,21 @@ _ROUTE = [0]
 _VISIT = [0]
 
 
+def _shape_ok(rbm, name, value):
+    """A model constructed for an architecture has parameters of that architecture's shapes; if it has not, no
+    parameter setting of the architecture can be installed and the constructor is at fault, not the check."""
+    import common
+    have = tuple(getattr(rbm, name).shape)
+    if have != tuple(value.shape):
+        raise common.CodeFault("construction:parameter-shape:%s.%s" % (type(rbm).__name__, name),
+                               "a model built for nv=%s nh=%s%s has %s of shape %s, the architecture requires %s"
+                               % (getattr(rbm, "num_visible", "?"), getattr(rbm, "num_hidden", "?"),
+                                  (" na=%s" % rbm.num_aux) if hasattr(rbm, "num_aux") else "", name, list(have),
+                                  list(value.shape)))
+
+
 def _assign(rbm, name, value):
+    _shape_ok(rbm, name, value)
     route = (_ROUTE[0] + _ROUTE[0] // 12) % 4        # (the extra term breaks the period 12 = lcm(3, 6, 4) of the wavefunctions)
     _ROUTE[0] += 1
     p = getattr(rbm, name)
@@ -158,6 +172,8 @@ def set_net(rbm, net, B):
         _assign(rbm, "hidden_bias", torch.tensor(net["c"], dtype=torch.double) * lnB)
         return
     with torch.no_grad():
+        for nm, k in (("weights", "W"), ("visible_bias", "b"), ("hidden_bias", "c")):
+            _shape_ok(rbm, nm, torch.tensor(net[k]))
         rbm.weights.copy_(torch.tensor(net["W"], dtype=torch.double) * lnB)
         rbm.visible_bias.copy_(torch.tensor(net["b"], dtype=torch.double) * lnB)
         rbm.hidden_bias.copy_(torch.tensor(net["c"], dtype=torch.double) * lnB)
@@ -298,6 +314,7 @@ def density_state(pt):
         if REUSE:
             _assign(rbm, name, v)
         else:
+            _shape_ok(rbm, name, v)
             with torch.no_grad():
                 getattr(rbm, name).copy_(v)
     return _scratch_spaces(s)
